@@ -164,10 +164,11 @@ Lemma first_byte p l b r : l = b :: r -> slice m p (List.length l) = l -> m p = 
 Proof. intros -> H. cbn [List.length] in H. rewrite slice_S in H. now injection H. Qed.
 
 (* ---- tokens through the dispatcher ---- *)
-Lemma rv_keyword f s nm : is_ok s = true -> nm <> [] -> forallb identb nm = true ->
+Lemma rv_keyword_node f s nm : is_ok s = true -> nm <> [] -> forallb identb nm = true ->
   let l := ":"%byte :: nm in
   cur s + N.of_nat (List.length l) <= e -> slice m (cur s) (List.length l) = l -> follow (cur s + N.of_nat (List.length l)) ->
-  reads s (TKw nm) (cur s + N.of_nat (List.length l)) (RV (S f) s).
+  exists s', RV (S f) s = Ret (Some (mk (VKeyword None nm) (cur s) (cur s + 1 + N.of_nat (List.length nm)))) s' /\
+             cur s' = cur s + N.of_nat (List.length l) /\ is_ok s' = true /\ depth s' = depth s.
 Proof.
   intros Hok Hne Hid l Hle Hsl Hf. unfold l in *. clear l.
   assert (Hb : m (cur s) = ":"%byte) by (apply (first_byte _ (":"%byte :: nm) _ nm eq_refl Hsl)).
@@ -181,14 +182,23 @@ Proof.
   usecls Hn 0%nat; usecls Hn 1%nat; usecls Hn 2%nat; usecls Hn 3%nat; usecls Hn 4%nat; usecls Hn 5%nat; usecls Hn 6%nat; usecls Hn 7%nat; usecls Hn 8%nat.
   rewrite Hmeta.
   rewrite (read_keyword_plain m e (with_start (enter s) (cur s)) nm Hne Hid) by (apply stands_of_follow; assumption).
-  eexists. eexists. split; [reflexivity|]. split; [constructor; reflexivity|]. cbn. repeat split; try assumption. cbn [List.length] in *. lia.
+  eexists. split; [reflexivity|]. cbn. repeat split; try assumption. cbn [List.length] in *. lia.
+Qed.
+Lemma rv_keyword f s nm : is_ok s = true -> nm <> [] -> forallb identb nm = true ->
+  let l := ":"%byte :: nm in
+  cur s + N.of_nat (List.length l) <= e -> slice m (cur s) (List.length l) = l -> follow (cur s + N.of_nat (List.length l)) ->
+  reads s (TKw nm) (cur s + N.of_nat (List.length l)) (RV (S f) s).
+Proof.
+  intros Hok Hne Hid l Hle Hsl Hf. destruct (rv_keyword_node f s nm Hok Hne Hid Hle Hsl Hf) as (s' & Hr & H1 & H2 & H3).
+  rewrite Hr. eexists. exists s'. split; [reflexivity|]. split; [constructor; reflexivity|]. repeat split; assumption.
 Qed.
 
-Lemma rv_int f s (neg : bool) (ds : list byte) : is_ok s = true -> ds <> [] -> forallb is_dig ds = true ->
+Lemma rv_int_node f s (neg : bool) (ds : list byte) : is_ok s = true -> ds <> [] -> forallb is_dig ds = true ->
   (List.hd "0"%byte ds <> "0"%byte \/ ds = ["0"%byte]) ->
   let l := (if neg then ["-"%byte] else []) ++ ds in
   cur s + N.of_nat (List.length l) <= e -> slice m (cur s) (List.length l) = l -> follow (cur s + N.of_nat (List.length l)) ->
-  reads s (TInt neg ds) (cur s + N.of_nat (List.length l)) (RV (S f) s).
+  exists s', RV (S f) s = Ret (Some (mk (int_literal_value c neg ds) (cur s) (cur s + N.of_nat (List.length l)))) s' /\
+             cur s' = cur s + N.of_nat (List.length l) /\ is_ok s' = true /\ depth s' = depth s.
 Proof.
   intros Hok Hne Hdig Hlead l Hle Hsl Hf.
   destruct ds as [|d0 ds']; [congruence|].
@@ -211,7 +221,7 @@ Proof.
     change (Scan.is_digit d0) with (is_dig d0). rewrite Hd0. cbn [andb].
     rewrite (read_number_tok_decimal_integer c m e (with_start (enter s) (cur s)) true ["-"%byte] (d0 :: ds') Hsign ltac:(discriminate) Hdig Hlead)
       by (cbn [cur with_start enter app List.length]; assumption).
-    eexists. eexists. split; [reflexivity|]. split; [constructor; reflexivity|]. cbn. repeat split; try assumption; reflexivity.
+    eexists. split; [reflexivity|]. cbn. repeat split; try assumption; reflexivity.
   - (* digits *)
     unfold l in *. cbn [app] in *. cbn [List.length] in Hle, Hsl, Hf.
     assert (Hb : m (cur s) = d0) by (rewrite slice_S in Hsl; now injection Hsl).
@@ -224,7 +234,17 @@ Proof.
     usecls Hn 0%nat; usecls Hn 1%nat; usecls Hn 2%nat; usecls Hn 3%nat; usecls Hn 4%nat; usecls Hn 5%nat; usecls Hn 6%nat. rewrite Hdc.
     rewrite (read_number_tok_decimal_integer c m e (with_start (enter s) (cur s)) false [] (d0 :: ds') Hsign ltac:(discriminate) Hdig Hlead)
       by (cbn [cur with_start enter app List.length]; assumption).
-    eexists. eexists. split; [reflexivity|]. split; [constructor; reflexivity|]. cbn. repeat split; try assumption; reflexivity.
+    eexists. split; [reflexivity|]. cbn. repeat split; try assumption; reflexivity.
+Qed.
+
+Lemma rv_int f s (neg : bool) (ds : list byte) : is_ok s = true -> ds <> [] -> forallb is_dig ds = true ->
+  (List.hd "0"%byte ds <> "0"%byte \/ ds = ["0"%byte]) ->
+  let l := (if neg then ["-"%byte] else []) ++ ds in
+  cur s + N.of_nat (List.length l) <= e -> slice m (cur s) (List.length l) = l -> follow (cur s + N.of_nat (List.length l)) ->
+  reads s (TInt neg ds) (cur s + N.of_nat (List.length l)) (RV (S f) s).
+Proof.
+  intros Hok Hne Hdig Hlead l Hle Hsl Hf. destruct (rv_int_node f s neg ds Hok Hne Hdig Hlead Hle Hsl Hf) as (s' & Hr & H1 & H2 & H3).
+  rewrite Hr. eexists. exists s'. split; [reflexivity|]. split; [constructor; reflexivity|]. repeat split; assumption.
 Qed.
 
 (* a closing delimiter inside a collection ends the element loop: NULL without an error, cursor unmoved *)
